@@ -101,6 +101,8 @@ theorem getEdgeColors_struct {sort : List Int → List Nat} {nRow nCol : Nat} {e
   unfold getEdgeColors at h
   simp only at h
   split at h
+  · simp at h
+  split at h
   · rename_i hempty
     simp only [Except.ok.injEq] at h
     subst h
